@@ -1,4 +1,5 @@
 import Juniper.Proofs.TreeSeek
+import Juniper.Proofs.TreeWhile
 /-!
 # `Range` on an unchanging tree yields exactly the entries inside the bounds, ascending (C01)
 -/
@@ -18,7 +19,7 @@ def keepOf (cmp : K → K → Int) (stop : Option (CmpOp × K)) (e : K × V) : B
 
 theorem drain_fwd {t : Tree K V} (hi : Inv cmp t) (stop : Option (CmpOp × K)) :
     ∀ (S : List (K × V)) (fuel : Nat) (c : Cursor K), Fwd t c S → S.length < fuel →
-      drain cmp t fuel { c := c, fwd := true, stop := stop, done := false } =
+      drainW cmp t fuel { c := c, fwd := true, stop := stop, done := false } =
         (S.takeWhile (keepOf cmp stop)).map outOf := by
   intro S
   induction S with
@@ -30,8 +31,8 @@ theorem drain_fwd {t : Tree K V} (hi : Inv cmp t) (stop : Option (CmpOp × K)) :
       have := rawNext_fwd hi hf
       simp only at this
       cases stop with
-      | none => simp [drain, iterNext, this]
-      | some s => obtain ⟨op, key⟩ := s; simp [drain, iterNext, this, whileChecksDone]
+      | none => simp [drainW, iterNextW, this]
+      | some s => obtain ⟨op, key⟩ := s; simp [drainW, iterNextW, this, whileChecksDone]
   | cons e S ih =>
     intro fuel c hf hl
     cases fuel with
@@ -41,16 +42,16 @@ theorem drain_fwd {t : Tree K V} (hi : Inv cmp t) (stop : Option (CmpOp × K)) :
       simp only [List.length_cons] at hl
       cases stop with
       | none =>
-        simp only [drain, iterNext, hr, List.takeWhile_cons, keepOf, if_true, List.map_cons, outOf]
+        simp only [drainW, iterNextW, hr, List.takeWhile_cons, keepOf, if_true, List.map_cons, outOf]
         rw [ih fuel c' hf' (by omega)]
       | some s =>
         obtain ⟨op, key⟩ := s
         by_cases hk : evalOp op (cmp e.1 key) = true
-        · simp only [drain, iterNext, whileChecksDone, Bool.false_eq_true, if_false, hr, whileStops, hk, Bool.not_true,
+        · simp only [drainW, iterNextW, whileChecksDone, Bool.false_eq_true, if_false, hr, whileStops, hk, Bool.not_true,
             List.takeWhile_cons, keepOf, if_true, List.map_cons, outOf]
           rw [ih fuel c' hf' (by omega)]
         · have hk' : evalOp op (cmp e.1 key) = false := by simpa using hk
-          simp [drain, iterNext, whileChecksDone, hr, whileStops, hk', keepOf]
+          simp [drainW, iterNextW, whileChecksDone, hr, whileStops, hk', keepOf]
 
 /-! ## filtering a sorted list by an interval -/
 
@@ -229,7 +230,7 @@ theorem range_refines_fwd (hc : StrictWeak cmp) {t : Tree K V} (hi : Inv cmp t) 
     refine ⟨{ c := doSeek cmp t sk (argKey arg lo hi'), fwd := true, stop := none, done := false },
       by simp only [range, mkIter, hside, pickSide_lower, pickSide_upper, hlk', hfind, hss, hhk', hsf]; cases arg <;> rfl, ?_⟩
     intro fuel hf
-    rw [drain_fwd hi none _ fuel _ (hfwd hi') (hlen fuel hf), hrange]
+    rw [← drain_eq_while cmp t fuel (IterEq.refl _ (fun _ => rfl)), drain_fwd hi none _ fuel _ (hfwd hi') (hlen fuel hf), hrange]
     have := htw ((toList t.root).dropWhile (fun x => !aboveLo cmp lo x.1))
     simp only [Option.map_none] at this
     rw [this]
@@ -238,7 +239,7 @@ theorem range_refines_fwd (hc : StrictWeak cmp) {t : Tree K V} (hi : Inv cmp t) 
     refine ⟨{ c := doSeek cmp t sk (argKey arg lo hi'), fwd := true, stop := some (op, (pickSide s lo hi').key), done := false },
       by simp only [range, mkIter, hside, pickSide_lower, pickSide_upper, hlk', hfind, hss, hhk', hsf]; cases arg <;> rfl, ?_⟩
     intro fuel hf
-    rw [drain_fwd hi (some (op, (pickSide s lo hi').key)) _ fuel _ (hfwd hi') (hlen fuel hf), hrange]
+    rw [← drain_eq_while cmp t fuel (IterEq.refl _ (fun _ => rfl)), drain_fwd hi (some (op, (pickSide s lo hi').key)) _ fuel _ (hfwd hi') (hlen fuel hf), hrange]
     have := htw ((toList t.root).dropWhile (fun x => !aboveLo cmp lo x.1))
     simp only [Option.map_some] at this
     rw [this]
